@@ -74,6 +74,20 @@ def optIntOfJ : J → Option (Option Int)
   | .int i => some (some i)
   | _ => none
 
+partial def predOfJ (j : J) : Option Pred :=
+  match j.get? "all", j.get? "paths", j.get? "depth", j.get? "not", j.get? "or" with
+  | some _, _, _, _, _ => some .all
+  | _, some (.arr ps), _, _, _ => (ps.mapM keysOfJ).map .paths
+  | _, _, some d, _, _ => d.asNat?.map .depth
+  | _, _, _, some q, _ => (predOfJ q).map .neg
+  | _, _, _, _, some (.arr [a, b]) => do pure (.or (← predOfJ a) (← predOfJ b))
+  | _, _, _, _, _ => none
+
+def optPredOfJ : Option J → Option (Option Pred)
+  | none => some none
+  | some .null => some none
+  | some j => (predOfJ j).map some
+
 def colorOfJ : J → Option (Option (Option Str × Option Str))
   | .null => some none
   | .arr [a, b] => do pure (some ((← optStrOfJ a), (← optStrOfJ b)))
@@ -103,7 +117,12 @@ def optsOfJ (j : J) : Option Opts := do
   let ll ← (j.getArr? "lowlight") >>= (·.mapM keysOfJ)
   let title ← (j.get? "title") >>= optStrOfJ
   let css ← (j.get? "css_classes") >>= strsOfJ
+  let incP ← optPredOfJ (j.get? "include_p")
+  let excP ← optPredOfJ (j.get? "exclude_p")
+  let ksP ← optPredOfJ (j.get? "key_style_p")
+  let unP ← optPredOfJ (j.get? "uncollapse_p")
   pure { keyColor := kc, highlight := hl, lowlight := ll,
+         includeP := incP, excludeP := excP, keyStyleP := ksP, uncollapseP := unP,
          top := { title := title, cssClasses := css, summaryColor := sc },
          enableSummary := es, enableSummaryForStr := esfs, maxSummaryLenForStr := maxl,
          enableSummaryTooltip := est, enableKeyTooltip := ekt, keyStyle := ks, collapseLevel := cl,
